@@ -158,7 +158,7 @@ def gen_store_spec(rng, size="small"):
     twin_of = None
     for ti in range(ntasks):
         op_type = rng.choice(OP_TYPES)
-        op_name = rng.choice([names[ti], names[ti], f"op-{ti}", "shared-op"])
+        op_name = rng.choice([names[ti], names[ti], f"op-{ti}", "shared-op"] + ([names[ti + 1]] if ti + 1 < len(names) else []))
         report = rng.random() < 0.85
         t = {
             "name": names[ti], "op": op_name, "op_type": op_type, "report": report, "meta": gen_meta(rng), "op_meta": gen_meta(rng),
@@ -376,6 +376,13 @@ def gen_results(rng, negative=False):
         if m:
             item["meta"] = m
         op_metrics.append(item)
+    if len(op_metrics) >= 2 and rng.random() < 0.3:
+        # the usual track shape {"name": "warmup-term", "operation": "term"} followed by {"operation": "term"} (task name defaults to the
+        # operation name): an earlier task uses the operation a later task is named after
+        i = rng.randrange(len(op_metrics) - 1)
+        j = rng.randrange(i + 1, len(op_metrics))
+        op_metrics[i]["operation"] = op_metrics[j]["task"]
+        feats.add("task-named-like-an-earlier-tasks-operation")
     d["op_metrics"] = op_metrics
     for attr in SHARD_TIME_METRICS:
         present = rng.random() < 0.5
